@@ -229,6 +229,17 @@ def check(case, obs):
             h, _ = np.histogram(np.arange(res[j], dtype=float), bins=e)
             obs.claim('one_bin', int(h.sum()) == res[j],
                       lambda: '%s: %d of %d reportable values fall in a bin' % (ctx, int(h.sum()), res[j]))
+    # a single channel taken out of the sample (a one-dimensional sample) gives the edges the parent gives for it
+    if sel and d.shape[0] > 0:
+        j = sel[0]
+        sc0 = sc_list[0]
+        kw0 = kw if sc0 == 'logicle' else {}
+        col = d[:, j]
+        e_par = call(d.hist_bins, j, nb_list[0], sc0, **kw0)
+        e_col = call(col.hist_bins, 0, nb_list[0], sc0, **kw0)
+        obs.claim('per_channel', raised(e_par) == raised(e_col) and (raised(e_par) or np.array_equal(np.asarray(e_par), np.asarray(e_col))),
+                  lambda: 'channel %d alone (d[:, %d].hist_bins, scale %s) gives other edges than the parent for that channel: %r vs %r' % (
+                      j, j, sc0, e_col if raised(e_col) else np.asarray(e_col)[[0, -1]], e_par if raised(e_par) else np.asarray(e_par)[[0, -1]]))
     # edges handed out earlier are not changed by later requests on the same sample
     if snapshot is not None:
         call(d.hist_bins, None, 7, 'linear')
